@@ -161,6 +161,14 @@ def nonrepresentable_int_bound(case):
     return False
 
 
+def kary_underflow_box(case):
+    """Guard of the open finding D13: KaryPartition on a box with a side inside the gradual-underflow range."""
+    if case["partition"]["cls"] != "KaryPartition":
+        return False
+    lim = 2.0 ** -1000
+    return any(abs(float(iv[0])) < lim and abs(float(iv[1])) < lim and float(iv[0]) != float(iv[1]) for iv in case["domain"])
+
+
 D12_CLAUSES = ("containment", "tiling", "centre", "leaves-tile-root", "child-box", "equal-size")
 
 
@@ -170,6 +178,10 @@ def check_case(case):
         if any(f["id"] == "D12" and f.get("status") == "open" for f in engine.load_known()):
             out.known = "D12"
             out.classes.append("known:D12")
+    elif out.violation and out.violation["clause"] in D12_CLAUSES and kary_underflow_box(case):
+        if any(f["id"] == "D13" and f.get("status") == "open" for f in engine.load_known()):
+            out.known = "D13"
+            out.classes.append("known:D13")
     elif nonrepresentable_int_bound(case):
         out.classes.append("bigint-bound-held")
     return out
